@@ -54,6 +54,10 @@ func buildOverlay(muts []string) (map[string][]byte, error) {
 		if !ok {
 			b, err := os.ReadFile(path)
 			if err != nil {
+				if os.IsNotExist(err) && parts[1] == "" {
+					ov[path] = []byte(parts[2]) // a file the variant adds
+					continue
+				}
 				return nil, err
 			}
 			src = b
